@@ -50,9 +50,9 @@ def books(thorough):
     return res
 
 
-def book_rows(book, first_ask_off=1, first_bid_off=1):
+def book_rows(book, first_ask_off=1, first_bid_off=1, mark=None):
     a, b = book
-    m = MARK["C1"]
+    m = mark if mark is not None else MARK["C1"]
     asks = [[float(m + STEP * (i + first_ask_off)), float(s)] for i, s in enumerate(a)]
     bids = [[float(m - STEP * (i + first_bid_off)), float(s)] for i, s in enumerate(b)]
     return asks, bids
@@ -71,6 +71,12 @@ def make_world(book, touch=False):
         asks = [[0.032, float(a[0])]] + ([[0.0625, float(a[1])]] if len(a) > 1 else []) + ([[0.07, float(a[2])]] if len(a) > 2 else [])
         bids = [[0.03, float(b[0])]] + ([[0.015625, float(b[1])]] if len(b) > 1 else []) + ([[0.01, float(b[2])]] if len(b) > 2 else [])
         c1_mark = 0.03125
+    elif touch in ("cheap", "deep"):
+        # cheap: premiums below 0.0024, where 12.5 % of the premium (not 0.03 % per contract) is the binding fee term, level by level different;
+        # deep: a deep in-the-money option whose neighbouring levels lie within 0.1 % of each other
+        mk = Decimal("0.002") if touch == "cheap" else Decimal("0.64")
+        asks, bids = book_rows(book, 1, 1, mk)
+        c1_mark = float(mk)
     else:
         asks, bids = book_rows(book, 0 if touch else 1, 0 if touch else 1)
         c1_mark = float(MARK["C1"])
@@ -394,6 +400,7 @@ def main(run: Run):
     jobs = [(run.seed, b, False, depth, max_dev, amounts) for b in bks]
     jobs += [(run.seed, b, True, depth, max_dev, amounts) for b in bks if len(b[0]) >= 1 and len(b[1]) >= 1][:: (1 if run.thorough else 3)]
     jobs += [(run.seed, b, "dyadic", depth, max_dev, amounts) for b in (((5, 2), (5, 2)), ((2, 5, 1), (1, 5)), ((1, 1), (2, 2, 2)))]
+    jobs += [(run.seed, b, t, depth, max_dev, amounts) for t in ("cheap", "deep") for b in (((5, 2, 1), (5, 2, 1)), ((1, 2, 5), (2, 2)), ((2, 2), (1, 5, 2)))]
     jobs = run.rotate(jobs)
     tot = {"states": 0, "transitions": 0, "complete": 0, "distinct_outcomes": 0, "accepted": 0, "rejected": 0}
     for r in pmap(run_partition, jobs):
@@ -414,7 +421,8 @@ def main(run: Run):
                             "amount rounding: below 1 contract is a rejection, otherwise ROUND_HALF_UP to whole contracts (ETH)",
                             "an order that the visible book can fill exactly, with cash / holding sufficient, is expected to be accepted",
                             "a level exactly on mark x cap may count as inside or outside the cap, but fills, cash and position must agree with one reading "
-                            "(dyadic books put levels exactly on the cap)"])
+                            "(dyadic books put levels exactly on the cap)",
+                            "cheap books (premium below 0.0024) make the 12.5 % fee cap bind; deep books have neighbouring levels within 0.1 % of each other"])
 
 
 def replay(run: Run, path):
